@@ -136,34 +136,54 @@ def rule_b(ctx, out):
                     f"structurally 'equal' formulas can differ in truth value", where(mod, r["node"]))
         else:
             out.ok({"connector": name, "commutative": r["comm"], "order_independent": spec[2]})
-    # Connector.__eq__
+    # Connector.__eq__ : abstract evaluation over pairs of small connectors — equal => same truth table; reflexive
+    import itertools as _it
     eq = ctx.p.cls("smt_encoding.constraints.connector.Connector").methods.get("__eq__")
     if eq is None:
         raise AnalysisError("Connector.__eq__ not found")
-    perms = [c for c in calls_in(eq.node, "permutations")]
-    if not perms:
-        out.ok({"__eq__": "no permutation"})
-    for c in perms:
-        cur, guarded = c, False
-        while cur is not None and cur is not eq.node:
-            p = getattr(cur, "_parent", None)
-            if isinstance(p, ast.If) and cur in p.body and "is_commutative" in norm(p.test) and not isinstance(p.test, ast.UnaryOp):
-                guarded = True
-            cur = p
-        if guarded:
-            out.ok({"__eq__": "permutes only under is_commutative"})
-        else:
-            out.bad("Connector.__eq__:unconditional-permutation", "arguments are permuted without testing the commutativity flag", where(eq, c))
-    rets = [r for r in own_nodes(eq.node) if isinstance(r, ast.Return) and not (isinstance(r.value, ast.Constant))]
-    if rets and all("connector_name" in norm(r.value) for r in rets):
-        out.ok({"__eq__": "compares connector names on every accepting path"})
-    else:
-        out.bad("Connector.__eq__:name-not-compared", "an accepting path of __eq__ does not compare connector names", where(eq))
-    first = [n for n in own_nodes(eq.node) if isinstance(n, ast.If)][0]
-    if "is_commutative" in norm(first.test) and "type" in norm(first.test):
-        out.ok({"__eq__": "rejects different types / flags first"})
-    else:
-        out.bad("Connector.__eq__:type-guard", "__eq__ does not first reject operands of another type or flag", where(eq, first))
+    comm = {k: v["comm"] for k, v in reg.items()}
+    atoms = [Atom("p"), Atom("q"), Atom("r")]
+    vals = [dict(p=a, q=b, r=c) for a in (False, True) for b in (False, True) for c in (False, True)]
+
+    def type_of(x):
+        return "Connector" if isinstance(x, FakeConn) else type(x)
+
+    def run_eq(c1, c2):
+        ev = Evaluator(eq.node, globals_env={"type": type_of, "itertools": {"\0module": "itertools"}},
+                       call_hook=lambda name, a, k: list(_it.permutations(*a)) if name.endswith("permutations") else (_ for _ in ()).throw(Unsupported(name)),
+                       obj_types=(FakeConn, Atom), max_steps=200000)
+        return bool(ev.call(c1, c2))
+
+    conns = []
+    for name in ("and", "or", "=>", "not"):
+        if name not in reg:
+            continue
+        ar = reg[name]["arity"]
+        sizes = [1, 2, 3] if ar == -1 else [ar]
+        for k in sizes:
+            for args in _it.product(atoms, repeat=k):
+                conns.append(FakeConn(name, comm.get(name, False), *args))
+    # a connector with the same arguments but the other commutativity flag / another name is included through the product
+    n_pairs = 0
+    try:
+        for c1 in conns:
+            if not run_eq(c1, FakeConn(c1.connector_name, c1.is_commutative, *c1.arguments)):
+                out.bad(f"Connector.__eq__:not-reflexive:{c1.connector_name}/{len(c1.arguments)}", f"{c1!r} is not equal to a copy of itself", where(eq))
+            for c2 in conns:
+                n_pairs += 1
+                if run_eq(c1, c2):
+                    same = all(_truth(c1, v) == _truth(c2, v) for v in vals)
+                    if not same:
+                        out.bad(f"Connector.__eq__:equal-but-different-truth:{c1.connector_name}/{len(c1.arguments)}~{c2.connector_name}/{len(c2.arguments)}",
+                                f"structural equality holds for {c1!r} and {c2!r}, whose truth tables differ", where(eq),
+                                {"left": repr(c1), "right": repr(c2)})
+    except Unsupported as e:
+        raise AnalysisError(f"Connector.__eq__: cannot evaluate abstractly: {e}")
+    except Raised as e:
+        out.bad("Connector.__eq__:raises", f"__eq__ raises {e.what}", where(eq))
+    out.instances += n_pairs
+    out.satisfied += n_pairs - len([f for f in out.findings if "Connector.__eq__" in f.key])
+    out.samples.append({"connector_pairs_compared": n_pairs})
 
 
 def _simplifier_funcs(ctx, reg):
@@ -240,6 +260,12 @@ class FakeConn:
 class Atom:
     def __init__(self, n):
         self.n = n
+
+    def __eq__(self, other):
+        return isinstance(other, Atom) and other.n == self.n
+
+    def __hash__(self):
+        return hash(self.n)
 
     def __repr__(self):
         return self.n
